@@ -1,0 +1,45 @@
+//go:build verif
+// +build verif
+
+package api
+
+// Exports for the /verif harness kernel "targets" (build tag "verif" only). Add-only.
+
+import (
+	"github.com/evanw/esbuild/internal/compat"
+	"github.com/evanw/esbuild/internal/css_ast"
+	"github.com/evanw/esbuild/internal/logger"
+)
+
+// VerifValidateFeatures runs the real validateFeatures on a deferred log and returns its four results together
+// with the texts of the messages it logged (text, then the note texts).
+func VerifValidateFeatures(target Target, engines []Engine) (js compat.JSFeature, css compat.CSSFeature, prefix map[css_ast.D]compat.CSSPrefix, targetEnv string, msgs []string, panicked string) {
+	log := logger.NewDeferLog(logger.DeferLogAll, nil)
+	defer func() {
+		if r := recover(); r != nil {
+			if s, ok := r.(string); ok {
+				panicked = s
+			} else {
+				panicked = "panic"
+			}
+		}
+	}()
+	js, css, prefix, targetEnv = validateFeatures(log, target, engines)
+	for _, m := range log.Done() {
+		msgs = append(msgs, m.Data.Text)
+		for _, n := range m.Notes {
+			msgs = append(msgs, n.Text)
+		}
+	}
+	return
+}
+
+// VerifValidateSupported runs the real validateSupported.
+func VerifValidateSupported(supported map[string]bool) (jsFeature, jsMask compat.JSFeature, cssFeature, cssMask compat.CSSFeature, msgs []string) {
+	log := logger.NewDeferLog(logger.DeferLogAll, nil)
+	jsFeature, jsMask, cssFeature, cssMask = validateSupported(log, supported)
+	for _, m := range log.Done() {
+		msgs = append(msgs, m.Data.Text)
+	}
+	return
+}
